@@ -199,6 +199,11 @@ def concrete_monitor(trace, native):
             if kindme == 'aggregate' and any(o[1] == 'Ok' and o[2] == k and o[3] == me for o in outs):
                 if any(not word[(d, k)] for d in deps):
                     viol.add('ok_without_cause')
+        if kindme in ('build', 'service'):
+            own = 'Build' if kindme == 'build' else 'Service'
+            for o in outs:
+                if o[1] == 'Ok' and o[3] == me and o[4] is not None and o[4] != (o[2] == own):
+                    viol.add('wrong_actual')
         if kindme == 'aggregate':
             for o in outs:
                 if o[1] == 'Ok' and o[3] == me and o[4] is not None:
